@@ -86,6 +86,8 @@ def symbolic_for(ip, node, it, fr):
     inv = None
     owner = fr.name
     c2 = ip.contracts.get(owner)
+    if ip.verifying and ip.verifying.split("#")[0] == owner and ip.verifying in ip.contracts:
+        c2 = ip.contracts[ip.verifying]          # a second contract of the same function (tagged) brings its own invariants
     if c2 is not None and key in c2.invariants and not getattr(ip, "frame_only", False):
         inv = c2.invariants[key]
     if inv is None:
